@@ -174,8 +174,10 @@ func (e *Engine) callFunc(fr *Frame, st *State, ins ssa.Instruction, fn *ssa.Fun
 		if c == nil {
 			unsupported("call %s: no contract", fn.Name())
 		}
+		e.havocCaptured(fr, st, args)
 		return e.applyContract(fr, st, ins, c, fn, args)
 	case "havoc":
+		e.havocCaptured(fr, st, args)
 		return e.havocCall(fr, st, fn.Signature, fn.Name())
 	}
 	// inline
@@ -267,6 +269,7 @@ func (e *Engine) callUnknown(fr *Frame, st *State, ins ssa.Instruction, cc *ssa.
 	// dynamic call of an unknown function value (user callback)
 	sig := cc.Value.Type().Underlying().(*types.Signature)
 	key := "callback:" + types.TypeString(cc.Value.Type(), func(p *types.Package) string { return p.Name() })
+	e.havocCaptured(fr, st, args)
 	if c, ok := e.ifaceContract(key); ok {
 		return e.applyIfaceContract(fr, st, ins, c, f, args, sig)
 	}
@@ -1150,4 +1153,37 @@ func (e *Engine) ifaceContract(key string) (*Contract, bool) {
 	}
 	c, ok := e.ifContract[key]
 	return c, ok
+}
+
+// havocCaptured: a closure handed to code that is not executed here (an abstracted callee) may be
+// run by it any number of times, so the local variables it captures can hold anything afterwards.
+func (e *Engine) havocCaptured(fr *Frame, st *State, args []Val) {
+	seen := map[*Cell]bool{}
+	var visit func(v Val, d int)
+	visit = func(v Val, d int) {
+		fv, ok := v.(*FuncVal)
+		if !ok || d > 4 {
+			return
+		}
+		for _, b := range fv.Bindings {
+			switch x := b.(type) {
+			case *PtrVal:
+				if x.Kind == KCell && x.Cell != nil && !seen[x.Cell] {
+					seen[x.Cell] = true
+					nv := e.tb.Fresh("cap_"+x.Cell.name, e.sortOf(x.Cell.typ))
+					st.cells[x.Cell] = nv
+					e.assumeWF(fr, st, nv, x.Cell.typ)
+					// a captured variable that itself holds a closure
+					if cur, ok := st.cells[x.Cell]; ok {
+						_ = cur
+					}
+				}
+			case *FuncVal:
+				visit(x, d+1)
+			}
+		}
+	}
+	for _, a := range args {
+		visit(a, 0)
+	}
 }
